@@ -31,7 +31,7 @@ RULE = ('cases = histories: (target operator, nrows, buffersize, cache, source f
 ASSUMPTIONS = ['reference counting plus gc.collect() reaches quiescence', 'the harness drops exception objects and tracebacks before the quiescence check']
 TARGETS = ['sort', 'join', 'complement', 'distinct', 'aggregate', 'pivot', 'mergesort', 'fromdicts']
 REQUIRED = (['target:' + t for t in TARGETS] + ['files-created', 'files-removed', 'iterator-outlived-view', 'abandoned-mid-iteration',
-            'source-failed-midway', 'complete-pass-after-a-failed-pass', 'pass-from-file-cache', 'cache-cleared-under-live-iterator', 'three-iterators', 'view-released-first', 'cache-off', 'quiescent-points-checked'])
+            'source-failed-midway', 'chunk-write-failed-midway', 'complete-pass-after-a-failed-pass', 'pass-from-file-cache', 'cache-cleared-under-live-iterator', 'three-iterators', 'view-released-first', 'cache-off', 'quiescent-points-checked'])
 EXHAUSTIVE = {'quick': False, 'thorough': False}   # the enumerated families are complete within their bounds, but a seeded random family is judged too
 
 _audit = None
@@ -143,6 +143,15 @@ def cases(ctx):
                     for k0 in (1, 2, n + 2):
                         steps = [['iter', 0], ['next', 0, k0], ['iter', 1], ['next', 1, 'all'], ['iter', 2], ['next', 2, 'all'], ['next', 0, 'all']]
                         yield {'target': 'sort', 'n': n, 'buffersize': bs, 'cache': cache, 'fail': fail, 'failpass': 1, 'steps': steps}
+    # a chunk *write* that fails part-way: a cell that cannot be pickled sits at row `bad`; whatever was created must be gone
+    # once everything is released
+    for tgt in ('sort', 'distinct', 'mergesort', 'aggregate'):
+        for n in range(1, maxn + 2):
+            for bs in range(1, n + 1):
+                for bad in range(0, n):
+                    for cache in (True, False):
+                        yield {'target': tgt, 'n': n, 'buffersize': bs, 'cache': cache, 'fail': None, 'failpass': None, 'unpicklable': bad,
+                               'steps': [['iter', 0], ['next', 0, 'all'], ['iter', 1], ['next', 1, 2], ['drop', 0], ['dropview'], ['drop', 1]]}
     # sort-backed families with buffersize 1
     for tgt in ('join', 'complement', 'distinct', 'aggregate', 'pivot', 'mergesort'):
         for n in (0, 1, 3):
@@ -241,6 +250,10 @@ def judge(case, ctx):
     ctx.op('target:' + tgt)
     rows = _source_rows(n)
     fail, failpass = case['fail'], case['failpass']
+    unpicklable = case.get('unpicklable')
+    if unpicklable is not None:
+        rows[1 + unpicklable][1] = (lambda: None)         # cannot be pickled: the chunk write fails at this row
+        ctx.seen('chunk-write-failed-midway')
     kw = {}
     if tgt != 'fromdicts':
         kw = {'buffersize': case['buffersize'], 'cache': case['cache']}
@@ -251,6 +264,7 @@ def judge(case, ctx):
         solo = [tuple(rows[0])] + [tuple(r) for r in rows[1:]]
     else:
         solo = util.rows_of(_build(case, rows, None, None, {}))
+    judge_rows = unpicklable is None
     c0, r0 = len(_audit.created), len(_audit.removed)
     out = []
     if tgt == 'fromdicts':
@@ -283,7 +297,7 @@ def judge(case, ctx):
                     # an iterator that ends normally has delivered the whole table, also when some *other* pass hit a source
                     # failure (a partially filled cache must never be replayed as if it were complete).  fromdicts on a
                     # generator that raised is exempt: the one-shot generator is dead afterwards by construction.
-                    if (fail is None or tgt != 'fromdicts') and [tuple(x) for x in got[i]] != solo:
+                    if judge_rows and (fail is None or tgt != 'fromdicts') and [tuple(x) for x in got[i]] != solo:
                         out.append({'kind': 'iterator-ended-with-wrong-rows', 'iterator': i, 'expected': solo, 'observed': got[i],
                                     'after-a-source-failure': failed})
                     elif failed:
@@ -298,6 +312,10 @@ def judge(case, ctx):
                     break
                 except Exception as e:  # noqa: anything else is the observation (e.g. a chunk file unlinked too early)
                     dead.add(i)
+                    if unpicklable is not None:
+                        failed = True        # the injected write fault; only the quiescent-point verdict applies
+                        del e
+                        break
                     out.append({'kind': 'live-iterator-failed', 'iterator': i, 'detail': '%s: %s' % (type(e).__name__, e),
                                 'delivered': list(got[i]), 'view-released': view is None})
                     del e
@@ -308,7 +326,7 @@ def judge(case, ctx):
                     dead.add(i)
                     out.append({'kind': 'iterator-runs-past-the-end', 'iterator': i, 'observed': got[i]})
                     break
-            if (fail is None or tgt != 'fromdicts') and not any(o['kind'].startswith('iterator') or o['kind'].startswith('live') for o in out):
+            if judge_rows and (fail is None or tgt != 'fromdicts') and not any(o['kind'].startswith('iterator') or o['kind'].startswith('live') for o in out):
                 if [tuple(x) for x in got[i]] != solo[:len(got[i])]:
                     out.append({'kind': 'iterator-delivered-wrong-rows', 'iterator': i, 'expected-prefix-of': solo, 'observed': got[i],
                                 'view-released': view is None})
